@@ -95,6 +95,10 @@ func VH_C08_Frame() {
 	vAssert(ini.sendCipher.nonce == 2 && rsp.recvCipher.nonce == 2, "a record does not consume exactly two nonces on each side")
 	vAssert(!vIdealEq(ini.sendCipher.secretKey[:], ini.recvCipher.secretKey[:]), "both directions use the same key")
 	vAssert(vIdealEq(ini.sendCipher.secretKey[:], rsp.recvCipher.secretKey[:]) && vIdealEq(ini.recvCipher.secretKey[:], rsp.sendCipher.secretKey[:]), "traffic keys are not complementary")
+	// base case of the lock-step induction: after split each direction's two
+	// ends also hold the same rotation salt (else they diverge at the first rotation)
+	vAssert(vIdealEq(ini.sendCipher.salt[:], rsp.recvCipher.salt[:]), "initiator->responder direction: the two ends hold different rotation salts after split")
+	vAssert(vIdealEq(rsp.sendCipher.salt[:], ini.recvCipher.salt[:]), "responder->initiator direction: the two ends hold different rotation salts after split")
 }
 
 // VH_C08_NoPlaintext: no byte handed to the writer by Flush depends on the
@@ -129,6 +133,16 @@ func VH_C08_ManyRecords() {
 		vAssert(err == nil, "Flush failed")
 		m, err := rsp.ReadMessage(&vPipeConn{buf: w.out})
 		vAssert(err == nil && vBytesEq(m, p), "record does not arrive after key rotations")
+		if err != nil {
+			return
+		}
+		// and the other direction, interleaved
+		w.out = w.out[:0]
+		vAssert(rsp.WriteMessage(p) == nil, "WriteMessage failed")
+		_, err = rsp.Flush(w)
+		vAssert(err == nil, "Flush failed")
+		m, err = ini.ReadMessage(&vPipeConn{buf: w.out})
+		vAssert(err == nil && vBytesEq(m, p), "record of the responder->initiator direction does not arrive after key rotations")
 		if err != nil {
 			return
 		}
